@@ -716,7 +716,13 @@ class Gen:
         if c < 0.89:
             b = r.choice([lit(r, "int"), ("num", "2", 2.0), ("num", "0.5", 0.5), ("un", "-", ("num", "1", 1.0)), ("num", "3", 3.0), ("bin", "^", ("num", "2", 2.0), ("num", "3", 3.0)), ("bin", "^", ("num", "3", 3.0), ("num", "2", 2.0)), ("bin", "^", ("num", "0.5", 0.5), ("un", "-", ("num", "2", 2.0)))])
             a = self.nexpr(d + 1)
-            if r.random() < 0.6:
+            w = r.random()
+            if w < 0.25:
+                # negative bases with integer exponents of both signs and parities (the sign of the result follows the parity of the exponent)
+                a = ("un", "-", r.choice([("num", "2", 2.0), ("num", "1.5", 1.5), ("num", "3", 3.0), ("fn", "abs", [a])])) if r.random() < 0.7 else ("par", ("un", "-", ("bin", "+", ("fn", "abs", [a]), ("num", "0.5", 0.5))))
+                k_ = r.choice([-5, -3, -2, -1, 1, 2, 3, 4])
+                b = ("num", str(k_), float(k_)) if k_ > 0 else ("un", "-", ("num", str(-k_), float(-k_)))
+            elif w < 0.7:
                 a = ("bin", "+", ("fn", "abs", [a]), ("num", "1", 1.0))
             return ("bin", "^", a, b)
         if c < 0.93:
